@@ -43,7 +43,7 @@ def run(tier):
                      '(stateless DFS over answer vectors: full product when it fits the cap, else deviation-bounded); each executed '
                      'reference is resolved against the year catalogue.  Plus a dynamic net over the E3 returns.  '
                      'states = distinct (line, outcome) classes, transitions = executions')
-    max_dev, cap = (2, 3000) if tier == 'quick' else (3, 60000)
+    max_dev, cap = (2, 3000) if tier == 'quick' else (3, 15000)
     run.extra['e4_bound'] = dict(max_deviations=max_dev, cap_per_definition=cap)
     items = [(y, ci, inst, li, max_dev, cap) for (y, ci, inst, li) in e4.work_items()]
     items = runner.rotate(items, run.seed)
